@@ -331,5 +331,8 @@ def run_c20(prop, cfg, tier, seed):
         viol += fviol
         cov.update(fcov)
     return generic(prop, cfg, tier, seed,
-                   [("pvboot", 1500, 40000, ["-repo", core.REPO], {"boote000": "F3"})],
+                   [("pvboot", 1500, 40000, ["-repo", core.REPO], {"boote000": "F3"}),
+                    # the shapes of the listed front-end findings are avoided above (there both front-ends are also held against
+                    # the printed grammar); here they are generated and the two front-ends only have to AGREE
+                    ("pvboot", 700, 15000, ["-repo", core.REPO, "-lift", "quotebyte", "-agree-only"], {})],
                    extra_viol=viol, extra_cov=cov)
